@@ -23,6 +23,7 @@ type Plan struct {
 	Wal    bool   `json:"wal"`
 	V      int    `json:"v"`
 	Dup    int    `json:"dup"`
+	E      []int  `json:"E"` // pages beyond the committed size that are written and then freed (never committed)
 }
 
 // PagerOpts are concretisation parameters that do not enlarge the model's state space.
@@ -271,6 +272,28 @@ func (p *Pager) JPage(q int) error {
 		}
 	}
 	return p.C.WriteDB(int64(r-1)*p.ps(), p.L.PageBytes(r, p.NewContent(q)))
+}
+
+// JPageBeyond writes model page q although it lies beyond the size the transaction will commit
+// (spilled during the transaction, freed again before the commit).
+func (p *Pager) JPageBeyond(q int) error {
+	r := p.L.Real(q)
+	if q > 1 {
+		for f := p.L.Real(q-1) + 1; f < r; f++ {
+			if f > p.fileRealSize() {
+				if err := p.C.WriteDB(int64(f-1)*p.ps(), p.L.PageBytes(f, Content{})); err != nil {
+					return fmt.Errorf("filler %d: %w", f, err)
+				}
+			}
+		}
+	}
+	return p.C.WriteDB(int64(r-1)*p.ps(), p.L.PageBytes(r, Content{V: p.plan.V + 200}))
+}
+
+// WFrameBeyond appends a (non-commit) frame for model page q that lies beyond the committed size.
+func (p *Pager) WFrameBeyond(q int) error {
+	r := p.L.Real(q)
+	return p.writeFrame(r, p.L.PageBytes(r, Content{V: p.plan.V + 200}), 0)
 }
 
 // JRbTrunc: rollback first cuts the file back to its original size.
